@@ -153,6 +153,47 @@ fn drive_mut<'a, const N: usize, P: Pad>(
     }
 }
 
+/// internal iteration (an iterator may override fold / rfold / count / last / for_each ...): same
+/// sequence, same order
+fn internal_shared<'a, const N: usize, P: Pad>(mk: impl Fn() -> Iter<'a, TokG<P>>, obs: &Obs, a: usize, b: usize, kind: Kind, ctx: &mut Ctx) {
+    let want: Vec<u64> = obs.ids[a..b].to_vec();
+    let got = mk().fold(Vec::new(), |mut v, t| {
+        v.push(t.peek("iter.fold").0);
+        v
+    });
+    if got != want {
+        bad(ctx, N, kind, "fold_order", format!("fold visited {:?} expected {:?}", got, want));
+    }
+    let mut got = mk().rfold(Vec::new(), |mut v, t| {
+        v.push(t.peek("iter.rfold").0);
+        v
+    });
+    got.reverse();
+    if got != want {
+        bad(ctx, N, kind, "rfold_order", format!("rfold visited (reversed) {:?} expected {:?}", got, want));
+    }
+    let mut fe = Vec::new();
+    mk().for_each(|t| fe.push(t.peek("iter.for_each").0));
+    if fe != want {
+        bad(ctx, N, kind, "for_each_order", format!("for_each visited {:?} expected {:?}", fe, want));
+    }
+    if mk().count() != want.len() || mk().last().map(|t| t.id) != want.last().copied() {
+        bad(ctx, N, kind, "count_last", format!("count()/last() disagree with {:?}", want));
+    }
+    let c: Vec<u64> = mk().rev().map(|t| t.id).collect();
+    let mut wr = want.clone();
+    wr.reverse();
+    if c != wr {
+        bad(ctx, N, kind, "rev_collect", format!("rev().collect() {:?} expected {:?}", c, wr));
+    }
+    let sk: Vec<u64> = mk().skip(1).step_by(2).map(|t| t.id).collect();
+    let ws: Vec<u64> = want.iter().skip(1).step_by(2).copied().collect();
+    if sk != ws {
+        bad(ctx, N, kind, "skip_step_by", format!("skip(1).step_by(2) {:?} expected {:?}", sk, ws));
+    }
+    ctx.count("internal_iterations", 6);
+}
+
 pub fn iters<const N: usize, P: Pad>(ctx: &mut Ctx) {
     ctx.panic_props = vec!["C08", "C11", "C07"];
     let routes: Vec<u8> = ctx.args.list("routes", &[0, 1, 2]).iter().map(|&x| x as u8).collect();
@@ -219,6 +260,51 @@ pub fn iters<const N: usize, P: Pad>(ctx: &mut Ctx) {
                                     if let Some((s, l)) = measured_layout(h.buf_ref(), &obs) {
                                         ctx.layouts.insert(hash64(&format!("{}|{}|{}|{}", N, P::NAME, s, l)));
                                     }
+                                    if script.is_empty() {
+                                        match (form, mutable) {
+                                            (None, false) => internal_shared::<N, P>(|| h.buf_ref().iter(), &obs, a, b, kind, ctx),
+                                            (Some(r), false) => {
+                                                with_range!(r, |rr| internal_shared::<N, P>(|| h.buf_ref().range(rr.clone()), &obs, a, b, kind, ctx))
+                                            }
+                                            (None, true) => {
+                                                let want: Vec<u64> = obs.ids[a..b].to_vec();
+                                                let got = h.buf().iter_mut().fold(Vec::new(), |mut v, t| {
+                                                    v.push(t.peek("itermut.fold").0);
+                                                    v
+                                                });
+                                                let mut rg = h.buf().iter_mut().rfold(Vec::new(), |mut v, t| {
+                                                    v.push(t.peek("itermut.rfold").0);
+                                                    v
+                                                });
+                                                rg.reverse();
+                                                let mut fe = Vec::new();
+                                                h.buf().iter_mut().enumerate().for_each(|(_, t)| fe.push(t.id));
+                                                if got != want || rg != want || fe != want || h.buf().iter_mut().count() != want.len() {
+                                                    bad(ctx, N, kind, "fold_order", format!("internal iteration visited {:?} / {:?} / {:?} expected {:?}", got, rg, fe, want));
+                                                }
+                                            }
+                                            (Some(r), true) => {
+                                                let want: Vec<u64> = obs.ids[a..b].to_vec();
+                                                let (got, rg, fe) = with_range!(r, |rr| {
+                                                    let got = h.buf().range_mut(rr.clone()).fold(Vec::new(), |mut v, t| {
+                                                        v.push(t.peek("itermut.fold").0);
+                                                        v
+                                                    });
+                                                    let mut rg = h.buf().range_mut(rr.clone()).rfold(Vec::new(), |mut v, t| {
+                                                        v.push(t.peek("itermut.rfold").0);
+                                                        v
+                                                    });
+                                                    rg.reverse();
+                                                    let mut fe = Vec::new();
+                                                    h.buf().range_mut(rr.clone()).for_each(|t| fe.push(t.id));
+                                                    (got, rg, fe)
+                                                });
+                                                if got != want || rg != want || fe != want {
+                                                    bad(ctx, N, kind, "fold_order", format!("internal iteration visited {:?} / {:?} / {:?} expected {:?}", got, rg, fe, want));
+                                                }
+                                            }
+                                        }
+                                    }
                                     match (form, mutable) {
                                         (None, false) => drive_shared::<N, P>(h.buf_ref().iter(), &obs, a, b, script, kind, ctx),
                                         (None, true) => drive_mut::<N, P>(h.buf().iter_mut(), &obs, a, b, script, kind, ctx),
@@ -236,6 +322,43 @@ pub fn iters<const N: usize, P: Pad>(ctx: &mut Ctx) {
                                         bad(ctx, N, kind, "buffer_changed", format!("before {:?} after {:?}", model, post.pairs()));
                                     }
                                     teardown(h, ctx, "iterate", None, false);
+                                }
+                                // internal iteration over the owning iterator and over a drain
+                                if script.is_empty() {
+                                    if !ctx.begin_case(|| format!("iters N={} T={} route={} start={} len={} internal iteration of IntoIter/Drain range={}", N, P::NAME, route_name(route), start, len, form.map(rg_str).unwrap_or_else(|| "-".into()))) {
+                                        continue;
+                                    }
+                                    ledger_reset();
+                                    let (mut h, model) = build::<N, P>(route, start, len, None, &mut vc);
+                                    let want: Vec<u64> = model[a..b].iter().map(|x| x.0).collect();
+                                    let rest: Vec<u64> = model[..a].iter().chain(model[b..].iter()).map(|x| x.0).collect();
+                                    let (got, after) = match form {
+                                        None => {
+                                            let buf = crate::term::take_buf(&mut h);
+                                            let mut g: Vec<u64> = buf.into_iter().rfold(Vec::new(), |mut v, t| {
+                                                v.push(t.peek("into_iter.rfold").0);
+                                                v
+                                            });
+                                            g.reverse();
+                                            (g, Vec::new())
+                                        }
+                                        Some(r) => {
+                                            let g = with_range!(r, |rr| h.buf().drain(rr).fold(Vec::new(), |mut v, t| {
+                                                v.push(t.peek("drain.fold").0);
+                                                v
+                                            }));
+                                            (g, observe(h.buf_ref()).ids)
+                                        }
+                                    };
+                                    if got != want || after != if form.is_some() { rest.clone() } else { Vec::new() } {
+                                        let c = ctx.cur_case.clone();
+                                        ctx.violation(
+                                            if form.is_some() { "C09" } else { "C08" },
+                                            format!("iter={}|ncap={}|fold_order", if form.is_some() { "Drain" } else { "IntoIter" }, ncls(N)),
+                                            format!("internal iteration yielded {:?} expected {:?}; contents afterwards {:?} expected {:?}; case={}", got, want, after, rest, c),
+                                        );
+                                    }
+                                    teardown(h, ctx, "internal_iteration", None, false);
                                 }
                                 // owning iterator: whole buffer only
                                 if form.is_none() {
